@@ -116,6 +116,22 @@ PROPS = {
         "level_text": "Exploration by generated request sequences incl. single-bit corruptions of valid messages; explicit oracle. Sampling, not proof.",
         "level_note": "Trusted base: rpki-rs CMS encoding/decoding used to build requests and to validate replies; krill's own signer used with harness-owned identity keys.",
     },
+    "C16": {
+        "level": "exploration",
+        "cases": {"quick": 1600, "thorough": 32000},
+        "rule": "cases = sequences of 20-80 (thorough 40-200) generated hostile inputs against one krill instance with a parent CA, two remote children and two publishers: byte-level mutations (truncate, bit flip, byte set, insert, delete, duplicate) "
+        "of valid signed RFC 6492 / RFC 8181 messages; token-level mutations of the XML (attribute values, numbers, base64 bodies replaced by damaged DER / truncated / doubled, elements deleted or duplicated) re-signed under the registered identity so the handlers "
+        "behind the signature check are reached; random bytes bare and under a valid signature; tree-level mutations of valid JSON bodies of the ROA, ASPA, BGPsec, add-child, update-child, add-parent, repository-contact and import routes "
+        "(leaf replaced by out-of-range numbers, nulls, nested arrays or strings from a list of hostile notations, member dropped, element duplicated) decoded with krill's types and passed to the manager call behind the route (for ROAs also the dry-run analysis); "
+        "text notations (ROA payload, ASPA definition, resource sets, handles as path segments, router key names, URIs) glued from the same list; distinct by hash of the case JSON; non-trivial iff some mutated input got past the decoders into a handler",
+        "floors": {"__nontrivial__": 0.90, "rfc6492-xml:error": 0.50, "rfc8181-xml:error": 0.50, "rfc6492-xml:accepted": 0.30, "json-roa:error": 0.15, "json-roa:accepted": 0.10, "json-aspa:accepted": 0.10, "rfc6492-cms:error": 0.50},
+        "assumptions": ["requests enter through the manager calls behind the HTTP routes (CaManager::rfc6492, RepositoryManager::rfc8181, ca_routes_update, ...); the HTTP layer's own body-size limit and path splitting are not exercised",
+                        "the harness is built like krill's release profile without overflow checks (wrapping arithmetic is not a panic in the shipped binary) but with unwinding so that a panic can be observed",
+                        "process exits are observed through hook H-exit (commons/verif exit_point) and count like panics"],
+        "technique": "generator-driven fuzzing (proptest strategies for structured byte, XML-token and JSON-tree mutations of valid messages) with the oracle inside the target: catch_unwind + exit hook for 'no panic, no exit', and a configuration/content digest compared around every request that returned an error",
+        "level_text": "Exploration by structured mutation fuzzing in-process; tens of thousands of hostile inputs per quick run. Sampling, not proof; not coverage-guided.",
+        "level_note": "Trusted base: the manager entry points are what the HTTP handlers call.",
+    },
     "C19": {
         "level": "exploration",
         "cases": {"quick": 1200, "thorough": 24000},
